@@ -319,7 +319,7 @@ def run(tier, seed):
         "RFC 8259 leaves open: escapes of lone surrogates, numbers beyond implementation range/precision; RFC 4648 leaves "
         "open: non-zero pad bits; such inputs are counted outside the domain (a crash on them still counts)",
         "inputs reach the builtins through Jsonnet string literals produced by lib/render.py str_lit (lexer trusted, C14)",
-        "std.parseYaml on non-JSON input is checked for totality only (the property claims no more)",
+        "std.parseYaml: JSON texts, the block-style subset of spec/Yaml.tla (value decided), everything else totality only",
     ]
     vlib.build_harness()
     judge = Judge(chk, seed)
